@@ -126,3 +126,19 @@ Definition canon (m : mir) : mir :=
 
 From NadaV.Model Require Import Compile.
 Definition mir_equivb (a b : mir) : bool := mir_eqb (canon a) (canon b).
+
+(* ---- the source tables of a MIR (source_files, source_refs): "the same up to renaming of
+   source-reference indices" = the same set of references and the same set of (file, text) pairs *)
+Record srctabs := { st_files : list (string * string);      (* file name, digest of the embedded text *)
+                    st_refs : list sref }.
+Definition sref_eqb (a b : sref) : bool :=
+  String.eqb (sr_file a) (sr_file b) && Z.eqb (sr_line a) (sr_line b) && Z.eqb (sr_off a) (sr_off b) && Z.eqb (sr_len a) (sr_len b).
+Definition pair_eqb (a b : string * string) : bool := String.eqb (fst a) (fst b) && String.eqb (snd a) (snd b).
+Definition subsetb {A} (eqb : A -> A -> bool) (a b : list A) : bool := forallb (fun x => existsb (eqb x) b) a.
+Definition sources_sameb (a b : srctabs) : bool :=
+  subsetb pair_eqb (st_files a) (st_files b) && subsetb pair_eqb (st_files b) (st_files a)
+  && subsetb sref_eqb (st_refs a) (st_refs b) && subsetb sref_eqb (st_refs b) (st_refs a).
+(* which part differs: 0 none, 1 files, 2 references *)
+Definition sources_diff (a b : srctabs) : Z :=
+  if negb (subsetb pair_eqb (st_files a) (st_files b) && subsetb pair_eqb (st_files b) (st_files a)) then 1
+  else if negb (subsetb sref_eqb (st_refs a) (st_refs b) && subsetb sref_eqb (st_refs b) (st_refs a)) then 2 else 0.
